@@ -96,7 +96,7 @@ def _run_locked(ctx, rule, names, facts):
         hdr, fsrc, psrc = variants(p)
         rc_f, codes, text = compile_src(fsrc, rmeta, deps)
         rc_p, pcodes, ptext = compile_src(psrc, rmeta, deps)
-        ok_fail = rc_f != 0 and hdr.get("error") in codes and hdr.get("mention", "") in text
+        ok_fail = rc_f != 0 and (hdr.get("error") in codes or hdr.get("error") == "any") and hdr.get("mention", "") in text
         ok_pass = rc_p == 0
         ctx.check(ok_fail and ok_pass, rule, "witness::" + n, "witness/%s.rs" % n,
                   "witness %s: the offending line fails to compile with %s mentioning `%s`, and the twin without it compiles" % (
